@@ -43,8 +43,10 @@ func (b *Stack[T]) Pop() (element T, success bool) {
 		return
 	}
 
-	//nolint:forcetypeassert // false positive, we know that the element is of type T
-	return b.elements.Remove(b.elements.Front()).(T), true
+	// (the zero value of an interface type - a nil element that was pushed - does not pass a type assertion)
+	element, _ = b.elements.Remove(b.elements.Front()).(T)
+
+	return element, true
 }
 
 func (b *Stack[T]) Size() int {
@@ -72,8 +74,10 @@ func (b *Stack[T]) PopOrWait(waitCondition func() bool) (element T, success bool
 		b.elementAdded.Wait()
 	}
 
-	//nolint:forcetypeassert // false positive, we know that the element is of type T
-	return b.elements.Remove(b.elements.Front()).(T), true
+	// (the zero value of an interface type - a nil element that was pushed - does not pass a type assertion)
+	element, _ = b.elements.Remove(b.elements.Front()).(T)
+
+	return element, true
 }
 
 func (b *Stack[T]) WaitIsEmpty() {
